@@ -3,7 +3,7 @@
    usage: tools/seedall.py [name ...]      env SEED_EXTRA="C06,C15" adds checks to every seed"""
 import os, sys, json, subprocess, glob, shutil, tempfile, re
 V = "/verif"
-EXTRA = {"C01-2": ["C06"], "C14-1": ["C01", "C06"], "C14-2": ["C03"], "C08-2": ["C07"], "C17-1": ["C08"], "C18-2": ["C18"], "C09-1": ["C07"], "C09-2": ["C11", "C15"]}
+EXTRA = {"C02-7": ["C08"], "C03-7": ["C08"], "C01-2": ["C06"], "C14-1": ["C01", "C06"], "C14-2": ["C03"], "C08-2": ["C07"], "C17-1": ["C08"], "C18-2": ["C18"], "C09-1": ["C07"], "C09-2": ["C11", "C15"]}
 names = sys.argv[1:] or sorted(os.path.basename(os.path.dirname(p)) for p in glob.glob(V + "/seeded/*/meta.json"))
 registered = {c["property_id"] for c in json.load(open(V + "/MANIFEST.json"))["checks"]}
 for name in names:
